@@ -175,6 +175,9 @@ def starttls_case(prefix, injected):
         probe('mail', b'MAIL FROM:<s@x.example>\r\n')
         probe('ehlo', b'EHLO again.example\r\n')
         probe('starttls2', b'STARTTLS\r\n')
+        if log[-1]['code'] == 220:
+            g.kill()
+            return log                                   # the server is now waiting for a second handshake
         for line in (b'MAIL FROM:<s@x.example>\r\n', b'RCPT TO:<good@x.example>\r\n', b'DATA\r\n'):
             peer.send(line)
             peer.reply()
@@ -211,13 +214,16 @@ def auth_case(mech, shape, tls, state_kind, verdict):
     if state_kind == 'in_trans':
         peer.send(b'MAIL FROM:<s@x.example>\r\n')
         peer.reply()
-    if state_kind == 'after_auth':
+    if state_kind in ('after_auth', 'after_auth_ehlo'):
         peer.send(b'AUTH CRAM-MD5\r\n')
         r = peer.reply()
         if r and r[0] == 334:
             chal = base64.b64decode(r[1][0])
             dig = hmac.new(PASS.encode('utf-8'), chal, hashlib.md5).hexdigest()
             peer.send(b64(USER.encode('utf-8') + b' ' + dig.encode()) + b'\r\n')
+            peer.reply()
+        if state_kind == 'after_auth_ehlo':
+            peer.send(b'EHLO again.example\r\n')       # a new EHLO does not make the session unauthenticated
             peer.reply()
         del log[:]
     ncb0 = sum(1 for e in log if e['t'] == 'cb' and e['name'] == 'AUTH')
@@ -289,7 +295,7 @@ def auth_case(mech, shape, tls, state_kind, verdict):
     r = peer.reply()
     cont_ok = bool(r and r[0] == 250)
     cbs = [e for e in log if e['t'] == 'cb' and e['name'] == 'AUTH'][ncb0:]
-    authed = bool(state['session'].auth) if state_kind != 'after_auth' else None
+    authed = bool(state['session'].auth) if not state_kind.startswith('after_auth') else None
     log.append({'t': 'auth', 'mech': mech.decode(), 'shape': shape, 'tls': tls, 'state': state_kind, 'code': code,
                 'cont_ok': cont_ok, 'cb': len(cbs), 'creds_ok': all(c['authcid'] == USER and c['secret_ok'] for c in cbs),
                 'authed': bool(authed), 'authed_known': authed is not None, 'verdict': verdict,
@@ -365,7 +371,7 @@ def main():
             for shape in ('initial', 'challenge', 'cancel', 'badb64', 'empty'):
                 jobs.append(('auth', mech, shape, tls, 'ok', 0))
             jobs.append(('auth', mech, 'initial', tls, 'ok', 535))
-            for st in ('pre_ehlo', 'in_trans', 'after_auth'):
+            for st in ('pre_ehlo', 'in_trans', 'after_auth', 'after_auth_ehlo'):
                 jobs.append(('auth', mech, 'initial', tls, st, 0))
     for tls in (False, True):
         jobs.append(('auth', b'PLAIN', 'bare', tls, 'ok', 0))
@@ -376,16 +382,18 @@ def main():
         idx += 1
         if idx % nshards != shard:
             continue
+        try:
+            ev = {'starttls': lambda: starttls_case(job[1], job[2]), 'auth': lambda: auth_case(*job[1:]),
+                  'client': lambda: client_case(job[1])}[job[0]]()
+        except Exception as e:  # noqa
+            ev = [{'t': 'banner', 'code': 0, 'driver_error': type(e).__name__}]
         if job[0] == 'starttls':
-            ev = starttls_case(job[1], job[2])
             cls = 'starttls' + ('-open' if len(job[1]) > 1 and b'MAIL' in job[1][1] else '') + ('-inject' if job[2] else '')
             cfg = {'kind': 'starttls'}
         elif job[0] == 'auth':
-            ev = auth_case(*job[1:])
             cls = 'auth-' + job[1].decode().lower() + ('-tls' if job[3] else '-notls') + '-' + job[4] + ('-' + job[2] if job[2] in ('bare', 'badb64', 'cancel', 'unknownmech') else '')
             cfg = {'kind': 'auth'}
         else:
-            ev = client_case(job[1])
             cls = 'clienttls' + ('-inject' if job[1] else '')
             cfg = {'kind': 'client'}
         stats['executions'] += 1
